@@ -156,7 +156,8 @@ def cfgOfSource : Config :=
   { ioFlagMask := Gen.EvLoop.ioFlagMask, timersPop := Gen.EvLoop.timersPop, errnoSaved := Gen.EvLoop.errnoSaved,
     pendingInit := Gen.EvLoop.pendingInit, reventsCleared := Gen.EvLoop.reventsCleared,
     invokeTypeSaved := Gen.EvLoop.invokeTypeSaved, sigSnapshot := Gen.EvLoop.sigSnapshot,
-    procSnapshot := Gen.EvLoop.procSnapshot, laterCancelMarks := Gen.EvLoop.laterCancelMarks }
+    procSnapshot := Gen.EvLoop.procSnapshot, laterCancelMarks := Gen.EvLoop.laterCancelMarks,
+    processLinked := Gen.EvLoop.processLinked }
 
 def step (d : DSt) (ts : List String) (impl : String) : DSt × String × String :=
   let wop := parseWOp ts
